@@ -185,8 +185,8 @@ NOT_YET = {}
 ALL = ['C%02d' % i for i in range(1, 21)]
 
 LEMMAS = {
-    'C01': 'K-read', 'C03': 'K-taste-good', 'C04': 'K-taste-bad', 'C05': 'K-strain', 'C06': 'K-combine', 'C07': 'K-expand', 'C08': 'K-expand', 'C09': 'K-pestle-seek',
-    'C10': 'K-whip, K-expand', 'C15': 'K-scan', 'C16': 'K-chunk', 'C17': 'K-ghost', 'C20': 'K-taste-good, K-taste-bad, K-read',
+    'C01': 'K-read', 'C03': 'K-taste-good', 'C04': 'K-taste-bad', 'C05': 'K-strain', 'C06': 'K-combine', 'C07': 'K-expand, K-slicebox', 'C08': 'K-expand, K-slicebox', 'C09': 'K-pestle-seek',
+    'C10': 'K-whip, K-expand', 'C11': 'K-chefmove', 'C15': 'K-scan', 'C16': 'K-chunk', 'C17': 'K-ghost', 'C20': 'K-taste-good, K-taste-bad, K-read',
 }
 CONF = {'C01', 'C02', 'C03', 'C04', 'C05', 'C06', 'C07', 'C08', 'C09', 'C10', 'C11', 'C14', 'C15', 'C16', 'C20'}
 
